@@ -64,7 +64,7 @@ func (q Query) String() string {
 // NewQuery returns a new mapreduce query.
 func NewQuery(queryStr string) (*Query, error) {
 	if queryStr == "" {
-		return nil, nil
+		return nil, errors.New(invalidQuery + "Empty query")
 	}
 	tokens := tokenize(queryStr)
 	q := Query{
